@@ -636,7 +636,12 @@ func init() {
 		}
 		out := make([]Value, 0, k)
 		if k > 0 {
-			rot := p.choose(len(elig))
+			rot := 0
+			if !p.kRandomDet {
+				rot = p.choose(len(elig))
+			} else {
+				p.note("bound: kRandomNodes picks the first eligible nodes in table order")
+			}
 			for i := 0; i < k; i++ {
 				out = append(out, elig[(rot+i)%len(elig)])
 			}
